@@ -38,6 +38,7 @@ CONSTANTS
   Faults,      \* faults an update may be served under: subset of {"none", "abmf"} ("abmf": the account server is unreachable)
   Events,      \* TRUE: the model's subscribers also send one-time events (event based charging next to their sessions)
   EvTypes,     \* values of oneTimeEventType a create may carry ("" = absent); legal with and without oneTimeEvent
+  BulkEvents,  \* numbers of usage containers a one-time event may carry in bulk (more than one record holds)
   OpCfgs,      \* operator configurations the CHF may run under (records [vl, vlp, qvt, th]; constant within a behaviour)
   Traffic,     \* numbers of unrelated one-time creates (they advance the global record counter)
   EmitOneIn    \* behaviour emission: print one transition in EmitOneIn (seeded by -seed)
@@ -154,7 +155,8 @@ DoCreate ==
 \* subscriber's records
 DoEvent ==
   /\ Events
-  /\ \E u \in Subs, c \in Consumers, ett \in EvTypes :
+  /\ \E u \in Subs, c \in Consumers, ett \in EvTypes, bulk \in BulkEvents \cup {0} :
+       \* (the containers of an event are not followed individually: the replay expands `bulk`)
        LET a  == [u |-> u, supi |-> Supi(u), sub |-> u, c |-> c, onetime |-> TRUE, usage |-> <<>>, chid |-> 0, pad |-> 0,
                   notify |-> "n/" \o u \o "/e"]
            r  == Create(st, a)
@@ -162,8 +164,8 @@ DoEvent ==
        IN /\ st' = r.st /\ h' = h2
           /\ flags' = StateFlags(r.st, h2)
           /\ hist' = Append(hist, [a |-> "create", u |-> u, s |-> "e", c |-> c, usage |-> <<>>, pad |-> 0, chid |-> 0, addr |-> "none",
-                                   onetime |-> TRUE, ett |-> ett,
-                                   sig |-> StepSig("event:" \o c \o ":" \o ett, st, r.st, u, <<>>, r.resp, <<>>)])
+                                   onetime |-> TRUE, ett |-> ett, bulk |-> bulk,
+                                   sig |-> StepSig("event:" \o c \o ":" \o ett \o ":" \o ToString(bulk), st, r.st, u, <<>>, r.resp, <<>>)])
           /\ UNCHANGED <<nid, labels>>
 
 \* a create that is rejected for its content (it names its own notification URI): nothing changes
